@@ -314,7 +314,7 @@ fn collect_off(node: &SyntaxNode, out: &mut Vec<Option<(String, String)>>) {
             }
             continue;
         }
-        if pending && !matches!(k, K::Space | K::Hash) {
+        if pending && !matches!(k, K::Space | K::Parbreak | K::Hash) {
             pending = false;
             if (c.is::<ast::Expr>() || matches!(k, K::Code | K::Math)) && !is_prose_kind(k) {
                 // every directive that is still waiting protects this node
@@ -680,6 +680,27 @@ fn import_keep_node(node: &SyntaxNode, out: &mut Vec<bool>) {
 pub fn obs_import_keep(root: &SyntaxNode) -> Vec<bool> {
     let mut v = Vec::new();
     import_keep_node(root, &mut v);
+    v
+}
+
+fn import_raw_node(node: &SyntaxNode, out: &mut Vec<Vec<String>>) {
+    if node.kind() == K::ImportItems {
+        out.push(
+            node.children()
+                .filter(|c| matches!(c.kind(), K::ImportItemPath | K::RenamedImportItem))
+                .map(|c| c.clone().into_text().to_string())
+                .collect(),
+        );
+    }
+    for c in node.children() {
+        import_raw_node(c, out);
+    }
+}
+
+/// Per import item list: the raw source text of each item (the key typstyle sorts by).
+pub fn obs_imports_raw(root: &SyntaxNode) -> Vec<Vec<String>> {
+    let mut v = Vec::new();
+    import_raw_node(root, &mut v);
     v
 }
 
